@@ -47,6 +47,12 @@ func VC10_DescriptorDecodeExact() {
 	rest := make([]byte, r.Len())
 	r.Read(rest)
 	vsym.AssertBytesEq(rest, in[16+n:], "payload left untouched")
+	// decoding another descriptor afterwards does not change the first value
+	other := vCat16(vsym.BytesN("other.time", 16), []byte{28, 0, 0, 0, 0x00, 0x02, 0xf1, 0x0e}, vsym.BytesN("other.guid", 16), vsym.BytesN("other.data", 4))
+	dd, errd := ReadEFIVariableAuthencation2(bytes.NewReader(other))
+	vsym.Assert(errd == nil, "a second descriptor decodes")
+	vsym.AssertBytesEq(dd.AuthInfo.CertData, other[40:], "certificate data of the second descriptor")
+	vsym.AssertBytesEq(d.AuthInfo.CertData, in[40:16+n], "certificate data of the first descriptor is unaffected by the second decode")
 	// encoding the decoded value reproduces the consumed bytes
 	var b bytes.Buffer
 	d.Marshal(&b)
@@ -79,6 +85,12 @@ func VC10_WinCertDecodeExact() {
 	vsym.Assert(c.Revision == vU16(in, 4), "revision recovered")
 	vsym.Assert(uint16(c.CertType) == vU16(in, 6), "certificate type recovered")
 	vsym.AssertBytesEq(c.Certificate, in[8:n], "certificate bytes recovered")
+	// a decoded value is a value of its own: decoding something else afterwards does not change it
+	other := append([]byte{12, 0, 0, 0, 0x00, 0x02, 0x02, 0x00}, vsym.BytesN("other.body", 4)...)
+	c2, err2 := ReadWinCertificate(bytes.NewReader(other))
+	vsym.Assert(err2 == nil, "a second WIN_CERTIFICATE decodes")
+	vsym.AssertBytesEq(c2.Certificate, other[8:], "certificate bytes of the second value")
+	vsym.AssertBytesEq(c.Certificate, in[8:n], "certificate bytes of the first value are unaffected by the second decode")
 	var b bytes.Buffer
 	WriteWinCertificate(&b, &c)
 	vsym.AssertBytesEq(b.Bytes(), in[:n], "encoding a decoded WIN_CERTIFICATE reproduces the consumed bytes")
@@ -116,4 +128,12 @@ func VC10_EncodeDecode() {
 	got.Marshal(&b2)
 	vsym.AssertBytesEq(b2.Bytes(), enc, "decode then encode is the identity on encoded values")
 	vsym.Reach("end")
+}
+
+func vCat16(parts ...[]byte) []byte {
+	var out []byte
+	for _, p := range parts {
+		out = append(out, p...)
+	}
+	return out
 }
